@@ -71,6 +71,16 @@ PROPS = {
                 "callback), racing request_stop over two stop states; one sub-workload uses plain OS threads only.",
         "required_probes": ["request_stop.won", "request_stop.lost", "cb.ran_in_constructor", "cb.destroy_self", "cb.dtor_waited_for_running_callback"],
     },
+    "C03": {
+        "quick_runs": 15000, "thorough_runs": 1500000, "seed": 3000001, "chunk": 4096,
+        "rule": "C03 programs: one of 15 pipeline shapes without scheduler (then, let_value, let_error, when_all 2/3 arms, "
+                "when_all_vector, split with 1-3 consumers, ensure_started (also dropped), drop_value, split_tuple, drop_operation_state, "
+                "unique_any_sender, any_sender copies, unpack, when_all over split copies) or 8 shapes on a 1-4 worker runtime "
+                "(schedule, continues_on, transfer_just, when_all/split over scheduled work); every leaf draws its channel "
+                "(value/error/stopped), its timing (inline in start / later from a completer thread) and payload; callables "
+                "throw at random; consumers start from 1-3 threads after drawn delays via connect/start or sync_wait.",
+        "required_probes": ["pure.shape6", "pure.shape7", "pure.shape9", "sched.shape1", "consumed_by_sync_wait", "split.consumers"],
+    },
     "C04": {
         "quick_runs": 20000, "thorough_runs": 2000000, "seed": 4000001, "chunk": 4096,
         "rule": "C04 programs: 2-12 read/readwrite requests taken in order from async_rw_mutex<Val> / async_rw_mutex<void>; each "
